@@ -50,21 +50,24 @@ Checks that missed a change at first were strengthened (noted below the table); 
 |---|---|---|---|---|
 """ + "\n".join(rows) + """
 
-Seven rounds were run (20 + 20 + 16 + 20 + 20 + 20 + 20 changes; seeds `Cxx`, `R2-Cxx` ... `R7-Cxx`; from the second round
-on the sub-agent was told, in one line each, the earlier ideas for the same property and asked for a different code site and
-mechanism; round 3 has 16 seeds because four sub-agents did not deliver a change that could be confirmed). The last column
-is the outcome of the matrix runs (`bin/seedmatrix`: checks against a scratch worktree with the patch, quick tier, after
-all strengthening; `seeded/matrix.json`). **Every one of the 136 changes is reported by the check of the property it
-breaks**; most are also reported by neighbouring checks. First-time results, before strengthening (own check / any check):
-round 1 — 14 / 20 of 20; round 2 — 8 of 20; round 3 — 4 of 16 (3 by no check, one made the harness itself fail); round 4 —
-9 of 20 (5 by no check: R4-C08, R4-C10, R4-C11, R4-C12, R4-C20); round 5 — 7 / 14 of 20 (none: R5-C03, R5-C05, R5-C13,
-R5-C14, R5-C17, R5-C20); round 6 — 9 / 16 of 20 (none: R6-C02, R6-C06, R6-C11, R6-C14; four of the nine own-check hits
-were families written *before* the round as a guess at what would come: more than 1024 replies per flush, a redirected
-request that stalls, the 6 MiB limit, duplicate whitelist lines); round 7 — see `seeded/matrix.json` (families written
-before the round that hit: several connections per node was not among them; the C05 two-byte enumeration, C07 CRLF values,
-C12 odd requests and the C02 cut enumeration were). Three seeds of round 6 (R6-C03, R6-C15, R6-C19) are the same change
-(ring buffers returned to the pool un-reset) handed in for three different properties, R7-C20 repeats R5-C14 and R7-C04
-repeats C05: they are kept because each is judged by a different check.
+Nine rounds were run (20 + 20 + 16 + 20 + 20 + 20 + 20 + 20 + 20 = 176 changes; seeds `Cxx`, `R2-Cxx` ... `R9-Cxx`; from the
+second round on the sub-agent was told, in one line each, the earlier ideas for the same property and asked for a different
+code site and mechanism; round 3 has 16 seeds because four sub-agents did not deliver a change that could be confirmed). The
+last column is the outcome of the matrix runs (`bin/seedmatrix`: checks against a scratch worktree with the patch, quick
+tier, after all strengthening; `seeded/matrix.json`). **Every one of the 176 changes is reported by the check of the
+property it breaks**; most are also reported by neighbouring checks. First-time results, before strengthening (own check /
+any check): round 1 — 14 / 20 of 20; round 2 — 8 of 20; round 3 — 4 of 16 (3 by no check, one made the harness itself
+fail); round 4 — 9 of 20 (5 by no check); round 5 — 7 / 14 of 20; round 6 — 9 / 16 of 20 (four of the nine own-check hits
+were families written *before* the round as a guess at what would come); round 7 — 7 / 14 of 20 (none: R7-C09, R7-C13,
+R7-C14, R7-C15, R7-C16, R7-C18 — each needed a capability the world did not have: time passing under load, several
+connections per node, a close with a backlog, traffic during the topology probe, connections between whitelist reloads);
+round 8 — measured only in part, a harness rebuild disturbed the first matrix run (R8-C14 and R8-C04 pointed at two BLIND
+SPOTS of the harness — the stubbed redis client and the mirrored boot path, §3.1 — and R8-C18 at a third: a fresh watcher
+object per reload); round 9 — see `seeded/matrix.json`. Several seeds repeat an earlier idea under another property
+(R6-C03 / R6-C15 / R6-C19, R7-C20 = R5-C14, R7-C04 = C05, R9-C01 = R8-C02, R9-C04 = R3-C20): they are kept because each is
+judged by a different check. Two sub-agents (rounds 5 and 9) reported, as a side remark, defects of the unchanged tree that
+the checks had not been asked about: the late redirect of a finished fragment (found independently while writing the C16
+family, fix 8c1e8ec) and the `nofailover` flag (fix d4e84db, §5.1).
 
 Strengthening triggered by first-time misses (no check was loosened, none of these families fires on the
 unchanged tree):
@@ -114,6 +117,16 @@ unchanged tree):
   with replicas (node model redirects writes at replicas); C11 error-then-sibling-deadline; C08 request larger than the read
   buffer with tail arguments; C06 / C19 slow-backend-overflow and many-medium-replies; C04 high-byte key for every slot; C03
   closed-with-unwritten-fragment; C01 handshake in pieces; C17 every reply shape at the limit; C20 replicas listed first.
+* round 8 — the proxy's own redis client runs for real (INFO in pieces); the REAL `serve()` / `engine.start()` boot (C04, C14
+  real-boot families); one watcher object across reloads + file contents with absent keys (C18); exact multiples of 1024
+  (C01, C06, C10); all fragments redirected (C13, C07); shared-slot open loop (C09); long invalid inputs (C12); slow client
+  overflow then more replies (C01, C19); client gone then backend lost (C15); oversize merge (C03); deep pipelines (C08);
+  write-then-set on MOVED-answering nodes (C10); redirect and error in one read (C11); replica left and returned (C20).
+* round 9 — a second genuine defect (the `nofailover` flag, §5.1); the blocking-send guard + nobody takes the probe replies
+  (C09); empty replies and local replies to a slow reader (C01, C19); MSET lists in C05; three-segment messages at
+  production buffers (C02); QUIT behind a request with coalesced replies (C03); several fragments in one write to a slow
+  node (C06); many-key streams (C08); ask-migrating (C10); error with slow-log (C11); AUTH lengths with a password (C12);
+  slot-less importing master (C13, C14); small size limit end-to-end (C14).
 """ + own + "\n" + e3
 open(root+'/DESIGN.md','w').write(head+body+sec8+appA+app)
 print("DESIGN.md written,", len(open(root+'/DESIGN.md').read().splitlines()), "lines")
